@@ -193,6 +193,9 @@ def make_batch(c):
     from ocean_science_utilities.wavespectra.parametric import create_frequency_shape, create_directional_shape
     from ocean_science_utilities.wavespectra.spectrum import create_2d_spectrum
     f = np.linspace(unhx(c["fmin"]), unhx(c["fmax"]), int(c["nf"]))
+    if c.get("fgrid") == "log":
+        # the logarithmic frequency grid of spectral wave models: bin widths grow with frequency
+        f = unhx(c["fmin"]) * (unhx(c["fmax"]) / unhx(c["fmin"])) ** (np.arange(int(c["nf"])) / (int(c["nf"]) - 1.0))
     d = np.linspace(0, 360, int(c["nd"]), endpoint=False)
     vds = []
     for s in c["specs"]:
